@@ -17,10 +17,11 @@ RULE = ("symmetric coolers = structured matrix family on 6 (thorough: + 8) bins 
         "`converged` is true: row sums of diag(w) F diag(w) over bins with a non-zero row lie in [t/(1+e), t/(1-e)], e = sqrt(N tol)/scale, "
         "t = 1 (rescaled) or scale; NaN set == union of the documented filters recomputed on the dense matrix; every other weight "
         "finite and > 0. Non-trivial: >=1 converged scope with >=2 retained bins. Distinct by construction.")
+EXTRA_LEGS = "coolers in which half of the stored pixels carry an explicit zero count (kind s6z), through the full option product; the bins left open by the mask clause are narrowed to zero-marginal bins that no documented filter excludes."
 BOUNDS = {"quick": "16 structured matrices x 3 tables on 6 bins x 144 option points + sweeps on 6 coolers; max_iters 50; command line: 8 blacklists x 3 tables, and {genome-wide, --cis-only, --trans-only} x --min-count {0, median} x --tol {1e-5, 1e-1} x --name {weight, w2} with --check / --stdout / --force around each, on 6 coolers",
           "thorough": "all structured matrices on 6 and 8 bins x 3 tables x 144 points; all 1024 four-bin patterns x 2 tables x 72 points; sweeps on 18 coolers; command line legs as in the quick tier"}
 ASSUMPTIONS = ["only runs/scopes that report convergence are judged (their number is in classes: scope:converged)",
-               "bins whose filtered marginal is exactly zero, and bins within 1e-9 relative of the MAD cutoff, are not judged by the mask clause",
+               "bins whose filtered marginal is exactly zero are not judged by the mask clause when no documented filter excludes them (with min_nnz >= 1, min_count > 0 or mad_max > 0 such a bin is excluded: NaN is demanded); bins within 1e-9 relative of the MAD cutoff are not judged",
                "max_iters is capped at 50 inside the product (200 appears only in the single sweep dimension)"]
 EXPECT_CLASSES = {"*": ["scope:converged", "scope:not-converged", "mode:gw", "mode:cis", "mode:trans", "mask:some-nan", "mask:all-finite", "cli-blacklist", "cli-opts"]}
 
@@ -36,7 +37,7 @@ CORE = [("gw", 2, 0, 0), ("gw", 1, 1, 0), ("gw", 0, 0, 0), ("gw", 2, 2, 3), ("ci
 
 def cooler_spec(kind, ti, mat):
     """-> (table, n, cells)"""
-    if kind in ("s6", "s6f"):
+    if kind in ("s6", "s6f", "s6z"):
         t = TABLES6[ti]
     elif kind == "s8":
         t = TABLES8[ti]
@@ -50,6 +51,10 @@ def cooler_spec(kind, ti, mat):
     return t, n, cells
 
 
+def zcount(n, c):
+    return alpha.value(n, c[0], c[1]) if (c[0] + c[1]) % 2 else 0
+
+
 def get_cooler(kind, ti, mat):
     import cooler
     t, n, cells = cooler_spec(kind, ti, mat)
@@ -58,6 +63,11 @@ def get_cooler(kind, ti, mat):
         # float64 counts, all strictly between 0 and 1 (dyadic): a 'count' need not be an integer
         pix = {c: {"count": alpha.value(n, c[0], c[1]) / 64.0} for c in cells}
         uri = fx.make(("c10", kind, ti, mat), bins, pix, cols=("count",), count_dtype=np.float64, h5opts={"compression": None, "shuffle": False})
+    elif kind == "s6z":
+        # half of the stored pixels carry an explicit ZERO count (cells with i + j even): a stored zero is no contact - it counts
+        # neither as a non-zero for min_nnz nor anywhere else
+        pix = {c: {"count": zcount(n, c)} for c in cells}
+        uri = fx.make(("c10", kind, ti, mat), bins, pix, cols=("count",), h5opts={"compression": None, "shuffle": False})
     else:
         pix = {c: {"count": alpha.value(n, c[0], c[1])} for c in cells}
         uri = fx.make(("c10", kind, ti, mat), bins, pix, cols=("count",), h5opts={"compression": None, "shuffle": False})
@@ -90,6 +100,9 @@ def units(tier):
         for mat in ("full", "checker", "mid_empty"):
             for mode in MODES:
                 yield {"leg": "product", "kind": "s6f", "t": ti, "mat": mat, "mode": mode}
+    for ti in range(3):
+        for mode in MODES:
+            yield {"leg": "product", "kind": "s6z", "t": ti, "mat": "full", "mode": mode}
     for mode in MODES:
         yield {"leg": "sameuri", "mode": mode}
     for ti in range(3):
@@ -131,7 +144,10 @@ def judge(R, inner, A, chrom_of, opts, w, st):
         # undecided bins: zero filtered marginal in the scope the sweep works on; MAD near-ties
         und = set(info["near_cutoff"]) | set(info.get("nan_marg", ()))
         for b in idx:
-            if rowF[b] == 0:
+            # a bin without any data is left open ONLY when no documented filter excludes it (all of min_nnz, min_count, MAD-max,
+            # blacklist, x0 leave it in): with a filter that drops it (zero non-zeros < min_nnz, zero count < min_count, a log-marginal
+            # of minus infinity below every MAD cutoff) the reference says NaN and NaN is demanded
+            if rowF[b] == 0 and not np.isnan(ref[b]):
                 und.add(int(b))
         want_nan = {int(b) for b in idx if np.isnan(ref[b])} - und
         got_nan = {int(b) for b in idx if nan_w[b]} - und
@@ -530,7 +546,7 @@ def classify(m):
         t, n, cells = cooler_spec(kind, ti, mat)
         A = np.zeros((n, n))
         for (i, j) in cells:
-            A[i, j] = A[j, i] = alpha.value(n, i, j) / (64.0 if kind == "s6f" else 1.0)
+            A[i, j] = A[j, i] = zcount(n, (i, j)) if kind == "s6z" else alpha.value(n, i, j) / (64.0 if kind == "s6f" else 1.0)
         chrom_of = [ci for ci, c in enumerate(t) for _ in c]
         d = m["detail"]
         w = np.array([float(x) if x != "nan" else np.nan for x in d[d.index(" w=[") + 4:d.rindex("]")].replace(" ", "").split(",")])
